@@ -480,7 +480,7 @@ func (in *Interp) divByConst(x, c *Term, signed bool) (q, r *Term, ok bool) {
 	}
 	in.ctx.AddPC(ts.And(eq, side))
 	in.ghost[key] = [2]*Term{q, r}
-	in.P.noteModelName("x / c, x % c for constant c encoded by witnesses q, r with x = q*c + r (unique by range and sign side conditions)")
+	in.noteModelName("x / c, x % c for constant c encoded by witnesses q, r with x = q*c + r (unique by range and sign side conditions)")
 	return q, r, true
 }
 
@@ -529,7 +529,7 @@ func (in *Interp) divLinear(x, c *Term) (q, r *Term, ok bool) {
 	if res, _ := in.ctx.Check(ts.Not(inRange), in.ctx.branchTO, nil); res != Unsat {
 		return nil, nil, false
 	}
-	in.P.noteModelName("(s*c + k) / c and % c computed exactly after the solver confirmed the no-overflow range of s and |k| < c")
+	in.noteModelName("(s*c + k) / c and % c computed exactly after the solver confirmed the no-overflow range of s and |k| < c")
 	zero := ts.BV(w, 0)
 	if k == nil {
 		return s, zero, true
@@ -603,7 +603,7 @@ func (in *Interp) linearSignCmp(op token.Token, x, y *Term) *Term {
 		pos = ts.Or(ts.Cmp(OpSlt, zero, s), ts.And(szero, kpos))
 		neg = ts.Or(ts.Cmp(OpSlt, s, zero), ts.And(szero, kneg))
 		in.ghost[key] = [2]*Term{neg, pos}
-		in.P.noteModelName("sign of s*c + k decided from s and k after the solver confirmed the no-overflow range")
+		in.noteModelName("sign of s*c + k decided from s and k after the solver confirmed the no-overflow range")
 	}
 	if neg == nil {
 		return nil
@@ -684,7 +684,7 @@ func (in *Interp) divLinearMultiple(x, c *Term, signed bool) (q, r *Term, ok boo
 	if res, _ := in.ctx.Check(ts.Not(cond), in.ctx.branchTO, nil); res != Unsat {
 		return nil, nil, false
 	}
-	in.P.noteModelName("(s*C + k) / c with c | C computed as s*(C/c) + k/c after the solver confirmed 0 <= s, 0 <= k < C and no overflow")
+	in.noteModelName("(s*C + k) / c with c | C computed as s*(C/c) + k/c after the solver confirmed 0 <= s, 0 <= k < C and no overflow")
 	sm := ts.Arith(OpMul, s, ts.BV(w, m))
 	if k == nil {
 		return sm, zero, true
